@@ -96,12 +96,22 @@ def module_state():
     return out
 
 
+def interpreter_modes():
+    """process-wide switches that decide whether a later numeric call returns or raises: numpy's floating-point error
+    handling and the attrs validator switch.  A modelling call that leaves them changed makes later calls (the caller's own
+    and the library's: 0/0 at a pure feed, out-of-range fractions) behave differently from a fresh interpreter."""
+    import attr
+    import numpy
+    return {"numpy_err": dict(numpy.geterr()), "attrs_validators_disabled": bool(attr.validators.get_disabled())}
+
+
 def canon(world, with_globals=True):
     """digest of what the purity properties speak about: the shared argument objects (every field, plus any attribute
     smuggled onto them) and the library's built-in Mixtures / Components singletons."""
     body = {"world": ser(world)}
     if with_globals:
         body["singletons"] = singletons()
+        body["modes"] = interpreter_modes()
     return hashlib.sha256(json.dumps(body, sort_keys=True).encode()).hexdigest()
 
 
